@@ -297,6 +297,14 @@ def make_udt(prj, rng, name, pool, used_ids, depth, max_members=12):
     while i < n:
         r = rng.random()
         mname = _name(rng, used, rng.choice([1, 2, 4, 6, 7, 12, 13, 24, 40]))
+        if rng.random() < 0.02:
+            # member names are the programmer's: also words the library uses as keys of its own definition dicts, and names that
+            # begin with ONE underscore (only two make a system member)
+            cand_ = rng.choice(["type_class", "_struct_members", "data_type", "internal_tags", "attributes", "template", "string", "name", "offset", "bit", "array",
+                                "_x", "_Counter", "_IO_EM_DO_00"])
+            if cand_.lower() not in used:
+                used.add(cand_.lower())
+                mname = cand_
         if i == ctl_at:
             mname = rng.choice(["CTL", "Control"])
             used.add(mname)
@@ -357,7 +365,9 @@ def generate_project(rng, size="small", fw=None, micro800=False):
     prj.fw_major = fw if fw is not None else rng.choice([16, 17, 18, 19, 20, 21, 24, 32])
     prj.name = _name(rng, set(), rng.choice([1, 5, 12, 20]))
     used_ids = {"template": set(), "handle": set(), "instance": set()}
-    used_names = set()
+    # the names of the elementary types are reserved words in a controller: no user-defined type is called INT (a random three-letter
+    # name hit exactly that once, and the request generator - which asks "is this an integer?" by type name - addressed bit 63 of it)
+    used_names = {n_.lower() for n_ in ATOMS} | {"bool", "byte", "word", "lword", "time", "date", "string"}
     ntypes = {"small": rng.randint(1, 4), "medium": rng.randint(3, 8), "large": rng.randint(6, 14)}[size]
     pool = []
     # string types of assorted capacities (builtin STRING is 82)
@@ -392,6 +402,9 @@ def generate_project(rng, size="small", fw=None, micro800=False):
 
     def new_tag(scope_names, program=None):
         nm = _name(rng, scope_names)
+        if rng.random() < 0.05 and len(nm) < 40 and ("_" + nm).lower() not in scope_names:
+            nm = "_" + nm      # a user tag may begin with one underscore (Micro800 embedded I/O: _IO_EM_DO_00); two make a system symbol
+            scope_names.add(nm.lower())
         r = rng.random()
         if r < 0.45:
             dt = ATOM_TYPES[rng.choice(["BOOL", "SINT", "INT", "DINT", "DINT", "LINT", "REAL", "LREAL", "USINT", "UINT", "UDINT", "ULINT"])]
@@ -522,6 +535,16 @@ def randomize_memory(prj, rng):
             t.data[:] = bytes(n)
         elif r < 0.2:
             t.data[:] = b"\xff" * n
+        elif r < 0.38:
+            # values at the edges of their types, 4 bytes at a time: 0, 1, -1, INT_MIN / -0.0, INT_MAX, +-infinity, NaN, the smallest
+            # denormal, 1.0, one byte set, "true" as 0xFF / 0x02 - and neighbours that are equal (runs of the same word)
+            words_ = [0, 0, 1, 0xFFFFFFFF, 0x80000000, 0x7FFFFFFF, 0x7F800000, 0xFF800000, 0x7FC00000, 0x00000001, 0x3F800000, 0x000000FF, 0xFF000000,
+                      0x00008000, 0x00010000, 0x02020202, 0x20202020, 0x00270022, 0x3B3B3B3B]
+            out_ = bytearray()
+            while len(out_) < n:
+                w_ = rng.choice(words_).to_bytes(4, "little")
+                out_ += w_ * rng.choice([1, 1, 2, 3])
+            t.data[:] = bytes(out_[:n])
         else:
             t.data[:] = rng.randbytes(n) if hasattr(rng, "randbytes") else bytes(rng.getrandbits(8) for _ in range(n))
         if t.dtype.name == "BOOL":
